@@ -1230,7 +1230,7 @@ impl Prop for C09 {
         "fault_enumeration"
     }
     fn rule(&self) -> String {
-        "Seeded programs of 2-9 commands; each command is one of 12 kinds (regular built-in, function, brace group, if, for, subshell, eval, command, not-found, redirection-only, exec, `:`; further kinds added later: case, while, function definition with redirections, first and last pipeline stage, command substitution, built-in / function with an assignment prefix, the `.` built-in, and `exec` with a command operand that cannot be executed, observed from the EXIT trap of its subshell) with 0-4 redirections over all operators (< > >| >> <> <&n >&n <&- >&- here-document), target descriptors 0-10, operands existing/missing/missing-directory//dev/null, sources open/closed/wrong-mode/shell-internal, noclobber toggled. A POSIX redirection-table model (descriptions with shared offsets, append, truncation) is stepped alongside and predicts the table seen by the command, I/O results through the redirected descriptors, the persistent table, statuses and final files. Faults ENUMERATED per program: the fault-free run counts the K descriptor allocations (all processes) and the program is re-run K times failing exactly the k-th allocation with EMFILE; plus runs under RLIMIT_NOFILE soft limits 3..16 and seeded schedules with preemption. Under faults only the non-relaxable invariants are checked (table restored after every non-exec command, no descriptor >= 10 left after exec, >=10 <=> close-on-exec, termination). A run is distinct non-trivial if it fired a fault or had >= 2 processes, keyed by (script hash, fault position/limit, schedule hash). Every position at which a write to a regular file can fail with ENOSPC is enumerated as well (up to 12/40 per program); `:` commands carry pathname expansions. A third of the `-c` programs run in an interactive shell (`-i`): a redirection error on a special built-in does not end it, so failing redirections on `exec`, `eval` and `:` occur at every position of a program, not only at its end.".into()
+        "Seeded programs of 2-9 commands; each command is one of 12 kinds (regular built-in, function, brace group, if, for, subshell, eval, command, not-found, redirection-only, exec, `:`; further kinds added later: case, while, function definition with redirections, first and last pipeline stage, command substitution, built-in / function with an assignment prefix, the `.` built-in, and `exec` with a command operand that cannot be executed, observed from the EXIT trap of its subshell, and a command that is not found with a command substitution in its assignment prefix) with 0-4 redirections over all operators (< > >| >> <> <&n >&n <&- >&- here-document), target descriptors 0-10, operands existing/missing/missing-directory//dev/null, sources open/closed/wrong-mode/shell-internal, noclobber toggled. A POSIX redirection-table model (descriptions with shared offsets, append, truncation) is stepped alongside and predicts the table seen by the command, I/O results through the redirected descriptors, the persistent table, statuses and final files. Faults ENUMERATED per program: the fault-free run counts the K descriptor allocations (all processes) and the program is re-run K times failing exactly the k-th allocation with EMFILE; plus runs under RLIMIT_NOFILE soft limits 3..16 and seeded schedules with preemption. Under faults only the non-relaxable invariants are checked (table restored after every non-exec command, no descriptor >= 10 left after exec, >=10 <=> close-on-exec, termination). A run is distinct non-trivial if it fired a fault or had >= 2 processes, keyed by (script hash, fault position/limit, schedule hash). Every position at which a write to a regular file can fail with ENOSPC is enumerated as well (up to 12/40 per program); `:` commands carry pathname expansions. A third of the `-c` programs run in an interactive shell (`-i`): a redirection error on a special built-in does not end it, so failing redirections on `exec`, `eval` and `:` occur at every position of a program, not only at its end.".into()
     }
     fn assumptions(&self) -> Vec<String> {
         vec![
